@@ -51,7 +51,7 @@ type fieldVariant struct {
 var fieldVariants = map[string]fieldVariant{
 	"set_ranked": {[]pilosa.FieldOption{pilosa.OptFieldTypeSet("ranked", 50000)}, pilosa.FieldOptions{Type: "set", CacheType: "ranked", CacheSize: 50000}, nil},
 	"set_lru7":   {[]pilosa.FieldOption{pilosa.OptFieldTypeSet("lru", 7)}, pilosa.FieldOptions{Type: "set", CacheType: "lru", CacheSize: 7}, nil},
-	"set_none":   {[]pilosa.FieldOption{pilosa.OptFieldTypeSet("none", 11)}, pilosa.FieldOptions{Type: "set", CacheType: "none", CacheSize: 11}, nil},
+	"set_none":   {[]pilosa.FieldOption{pilosa.OptFieldTypeSet("none", 11)}, pilosa.FieldOptions{Type: "set", CacheType: "none", CacheSize: 0}, nil}, // applyOptions: a size given with cache type none is stored as 0
 	"mutex":      {[]pilosa.FieldOption{pilosa.OptFieldTypeMutex("ranked", 123)}, pilosa.FieldOptions{Type: "mutex", CacheType: "ranked", CacheSize: 123}, nil},
 	"bool":       {[]pilosa.FieldOption{pilosa.OptFieldTypeBool()}, pilosa.FieldOptions{Type: "bool", CacheType: "none"}, nil},
 	"int":        {[]pilosa.FieldOption{pilosa.OptFieldTypeInt(-5, 900)}, pilosa.FieldOptions{Type: "int", CacheType: "none", Min: -5, Max: 900}, nil},
@@ -385,7 +385,7 @@ func runSchemaJoin(t testing.TB, c *scCase, cover func(string)) (fail *scFail, s
 	e := expectedSchema(exp)
 	for k, m := range all {
 		if got := noViews(canon(schemaOf(m), false)); got != noViews(e) {
-			return &scFail{"broadcast", "schema_differs", fmt.Sprintf("node %d of the cluster the operations were issued in differs from the specification: %s\nnode:\n%sexpected:\n%s", k, firstDiff(got, e), got, e)}, ""
+			return &scFail{"broadcast", "schema_differs", fmt.Sprintf("node %d of the cluster the operations were issued in differs from the specification: %s\nnode:\n%sexpected:\n%s", k, firstDiff(got, noViews(e)), got, noViews(e))}, ""
 		}
 	}
 	j := test.NewCommandNode(false)
